@@ -13,6 +13,11 @@ ID = "m{:02d}"
 def expressible(model):
     if any(a["map"] for a in model["axes"]):
         return False
+    # conditions on an axis that does not vary are a designspace matter (a Glyphs axis rule on such an axis is not something
+    # the bracket-layer oracle models)
+    point = {a["tag"] for a in model["axes"] if a["min"] == a["max"]}
+    if any(c["tag"] in point for r in (model.get("rules") or {}).get("rules", []) for cs in r["sets"] for c in cs):
+        return False
     for g in model["glyphs"]:
         for layer in g["layers"].values():
             for c in layer["components"]:
